@@ -111,7 +111,7 @@ def evaluate(ctx, pid, obs, what):
         texts.append(HEADER + "Definition cases : list fcase := [\n  %s\n].\n"
                      "Definition extra : list (N * option N) := %s.\n"
                      "Definition M := Eval vm_compute in mismatches extra cases.\nPrint M.\n"
-                     "Definition P := Eval vm_compute in property_failures cases.\nPrint P.\n" % (cases, extra))
+                     "Definition P := Eval vm_compute in property_failures extra cases.\nPrint P.\n" % (cases, extra))
     res = ctx.coq_eval_shards(pid + "_cases", texts, ["M", "P"], workers=12)
     nm = 0
     for si, r in enumerate(res):
